@@ -1104,7 +1104,15 @@ def _arr_getitem(dom, args, kw):
     if isinstance(idx, slice):
         parts = [p if p is not None else 0 for p in (idx.start, idx.stop, idx.step)]
         flags = tuple(p is None for p in (idx.start, idx.stop, idx.step))
-        return opaque(dom, "slice", [a] + parts, "V", static=flags)
+        out = opaque(dom, "slice", [a] + parts, "V", static=flags)
+        if flags == (False, True, True):
+            # a[k:] along the first axis keeps rows(a) - k rows when 0 <= k <= rows(a) (ground instance)
+            ra = uf("rows", Vec, I)(vec_of(dom, a))
+            k = zint(idx.start)
+            ro = uf("rows", Vec, I)(dom.run.heap[out.ref])
+            dom.run.assume(z3.Implies(z3.And(k >= 0, k <= ra), ro == ra - k))
+            dom.run.assume(z3.Implies(z3.And(k < 0, -k <= ra), ro == -k))       # a[-k:] keeps the last k rows
+        return out
     raise Unsupported(f"opaque array subscript {idx!r}")
 
 
@@ -1190,7 +1198,7 @@ def _shape_getitem(dom, args, kw):
         raise Unsupported("symbolic axis number")
     if idx == 0:
         t = uf("size", Vec, I)(sh.term)      # for a vector, shape[0] is its size
-        t0 = uf("dim0", Vec, I)(sh.term)
+        t0 = uf("rows", Vec, I)(sh.term)       # the same symbol as len(a) and a.shape[0] of a known matrix
         dom.run.assume(t0 >= 0)
         return wrap(t0)
     t = uf("dim%d" % idx, Vec, I)(sh.term)
